@@ -4,7 +4,7 @@ From TS Require Import Model.Str Model.Outcome Model.Unicode Model.Types Model.P
                        Model.Lang.TypeScript Model.Lang.Kotlin Model.Lang.Scala Model.Lang.Go Spec.C09Spec.
 From TS Require Import Model.Lang.Swift Model.Lang.Python.
 From TS Require Proofs.C09Common Proofs.C09Recon Proofs.C09Refs Proofs.C09_KotlinFile Proofs.C09Witness Proofs.C09Final.
-From TS Require Proofs.C09_TypeScript Proofs.C09_Scala Proofs.C09_Python Proofs.C09_Swift.
+From TS Require Proofs.C09_TypeScript Proofs.C09_Scala Proofs.C09_Python Proofs.C09_Swift Proofs.C09_Go.
 Import ListNotations.
 From TS Require Props.C09.
 
@@ -93,6 +93,21 @@ Goal forall (uc : unicode) (cfg : sw_config) (pd : parsed),
       good_C09 Swift (sw_prefix cfg) pd (c09_observe Swift fd) = true.
 Proof. exact Props.C09.C09_no_rename_Swift. Qed.
 Print Assumptions Props.C09.C09_no_rename_Swift.
+Goal forall (uc : unicode) (cfg : go_config) (pd : parsed),
+    go_uppercase_acronyms cfg = [] ->
+    dom_C09 Go [] pd = true -> known_C09 Go [] (go_uppercase_acronyms cfg) pd = None ->
+    forall fd : file_decls, go_file_decls uc cfg (Proofs.C09Recon.c09_reconciled pd) = Ok fd ->
+      good_C09 Go [] pd (c09_observe Go fd) = true.
+Proof. exact Props.C09.C09_Go_partial. Qed.
+Print Assumptions Props.C09.C09_Go_partial.
+Goal forall (uc : unicode) (cfg : go_config) (pd : parsed),
+    go_uppercase_acronyms cfg = [] ->
+    dom_C09 Go [] pd = true ->
+    (forall e, In e (c09_entities pd) -> c09_renamed_away (c9e_id e) = false) ->
+    forall fd : file_decls, go_file_decls uc cfg (Proofs.C09Recon.c09_reconciled pd) = Ok fd ->
+      good_C09 Go [] pd (c09_observe Go fd) = true.
+Proof. exact Props.C09.C09_no_rename_Go_partial. Qed.
+Print Assumptions Props.C09.C09_no_rename_Go_partial.
 Goal forall (L : lang) (pfx : str) (pd : parsed),
     (forall e, In e (c09_entities pd) -> c09_renamed_away (c9e_id e) = false) ->
     (forall a, In a (p_aliases pd) -> c09_inline_generic_class L pfx a = None) ->
